@@ -76,7 +76,7 @@ class LogCapture(logging.Handler):
 class Integ:
     """One pyscript integration instance.  Use: `async with Integ(files, legacy=...) as it:`"""
 
-    def __init__(self, files, legacy=False, config_extra=None, base_dt=BASE_DT, tz=None, autostart=True, initial_states=None):
+    def __init__(self, files, legacy=False, config_extra=None, base_dt=BASE_DT, tz=None, autostart=True, initial_states=None, dst_clock=False):
         self.files = dict(files)  # relative path under pyscript/ -> source
         self.legacy = legacy
         self.config = {"pyscript": {"allow_all_imports": False, "legacy_decorators": bool(legacy)}}
@@ -92,12 +92,21 @@ class Integ:
         self.log = LogCapture()
         self.tz = tz
         self.initial_states = initial_states or {}
+        self.dst_clock = dst_clock
 
     # ------------------------------------------------------------------ clock
     def vnow(self):
-        """Virtual naive local datetime."""
+        """Virtual naive local datetime.  With dst_clock the wall clock is derived from a virtual UTC instant
+        through zoneinfo, so it jumps at daylight-saving transitions exactly as a real one does."""
         loop = asyncio.get_running_loop()
-        return self.base_dt + dt.timedelta(microseconds=loop.vnow_us() - int(BASE_LOOP_T * 1_000_000))
+        elapsed = dt.timedelta(microseconds=loop.vnow_us() - int(BASE_LOOP_T * 1_000_000))
+        if self.dst_clock:
+            import zoneinfo
+
+            z = zoneinfo.ZoneInfo(self.tz)
+            base_utc = self.base_dt.replace(tzinfo=z).astimezone(dt.timezone.utc)
+            return (base_utc + elapsed).astimezone(z).replace(tzinfo=None)
+        return self.base_dt + elapsed
 
     def vt(self):
         """Virtual seconds since the base instant."""
